@@ -334,8 +334,10 @@ sts_atmost_aux(Source *source, Sink *sink, ByteBuffer *b, const size_t n)
 {
     ByteBuffer buffer;
     memcpy(&buffer, b, sizeof(*b));
-    if (buffer.size > n) {
-        buffer.size = n;
+    /* The limit applies to the free space behind what the buffer already
+     * holds, that is what sts_some_aux() works with. */
+    if (byte_buffer_avail(&buffer) > n) {
+        buffer.size = buffer.used + n;
     }
     return sts_some_aux(source, sink, &buffer);
 }
